@@ -3,9 +3,9 @@
    rasteriser that received straight edges, every surface size, every position relative to the surface, both winding
    rules (theorems 1-6; _partial because they speak about the coverage mask), and end to end from DrawTarget::fill of a
    polygon with an opaque white source over a transparent surface down to the alpha of every pixel (theorems 7-9,
-   FillProofs.v), with the f32 conversion of quarter-grid vertices exact (theorem 10, GridProofs.v).  What stays with the
-   correspondence and the rational oracle of the C01 check: the distance between the fixed-point crossing and the
-   exact crossing folded into one coverage statement (5 gives the bound). *)
+   FillProofs.v), with the f32 conversion of quarter-grid vertices exact (theorem 10, GridProofs.v).  Theorems 11-14
+   (ExactCrossing.v) restate the coverage on the exact rational crossings; their gap hypothesis (no crossing within the
+   fixed-point error of a cell boundary) is necessary and is what the rational oracle of the C01 check leaves open too. *)
 Require Import RQ.Base RQ.Rect RQ.Raster RQ.RasterProofs.
 
 (* (1) antialiased: every byte of the coverage mask is min(255,16K) or 16K-1, K = number of quarter cells of the pixel
@@ -152,3 +152,66 @@ Theorem C01_quarter_grid_vertices_convert_exactly : forall q nx ny, fquarter (px
   f32_to_dot2 (px (xf_point xf_identity q)) = nx /\ f32_to_dot2 (py (xf_point xf_identity q)) = ny.
 Proof. exact dot2_quarter_identity. Qed.
 Print Assumptions C01_quarter_grid_vertices_convert_exactly.
+
+(* ---- the model's fixed-point crossings against the exact geometry (ExactCrossing.v) ---- *)
+Require Import RQ.ExactCrossing.
+
+(* (11) the rounded 16.16 crossing of a segment with a sample row IS the exact rational crossing rounded half-up to the
+   quarter-pixel cell, whenever the exact crossing is not within (y-ya)/16384 cells of a cell boundary (gap_ok; the
+   hypothesis is necessary: ExactCrossing.tie_counterexample) *)
+Theorem C01_crossings_are_exact_crossings_rounded : forall xa ya xb yb y,
+  ya < yb -> ya <= y <= yb -> gap_ok xa ya xb yb y ->
+  Raster.rnd (fixed_cross xa ya xb yb y) = exact_round xa ya xb yb y.
+Proof. exact rnd_is_exact_round. Qed.
+Print Assumptions C01_crossings_are_exact_crossings_rounded.
+
+(* (12) without the gap hypothesis the crossing is still within one cell of the exact one on every segment no taller
+   than 4096 px *)
+Theorem C01_crossings_within_one_cell_of_exact : forall xa ya xb yb y,
+  ya < yb -> ya <= y <= yb -> y - ya <= 16384 ->
+  let m := exact_round xa ya xb yb y in
+  let r := Raster.rnd (fixed_cross xa ya xb yb y) in
+  Z.abs (r - m) <= 1 /\ (r <> m -> ~ gap_ok xa ya xb yb y).
+Proof. intros xa ya xb yb y H1 H2 H3. destruct (rnd_near_exact_round xa ya xb yb y H1 H2 H3) as (A & B & _). split; assumption. Qed.
+Print Assumptions C01_crossings_within_one_cell_of_exact.
+
+(* (13) 4x4 supersampling stated on the EXACT geometry: the mask byte of pixel (q,p) is 16*K (255 when K = 16; 16*K-1 is
+   the accumulate-byte carry, see (8)) where K counts the 16 sample cells (4 rows x 4 columns) that the winding rule,
+   evaluated on the exact rational crossings rounded to cells, puts inside.  Partial: gap_all (no live crossing within
+   the fixed-point error of a cell boundary) is assumed for the sample rows of the mask; it is decidable
+   (gap_allb_sound) and holds for every corpus polygon, but not for every polygon *)
+Theorem C01_coverage_is_exact_supersampling_partial : forall rule W H gs,
+  let r := add_segs (rast_new W H) gs in
+  let b := get_bounds r in
+  let G := map seg_geom gs in
+  0 <= H -> 0 <= r_w b -> 0 <= r_h b ->
+  gap_all G (y0 b * 4) (y0 b * 4 + r_h b * 4) ->
+  exists r' buf',
+    rasterize blit_super rule r (maskbuf_new (x0 b) (y0 b) (r_w b) (r_h b)) =
+      Ok (r', mk_maskbuf (x0 b * 4) (y0 b * 4) (r_w b) buf') /\
+    length buf' = Z.to_nat (r_w b * r_h b + 1) /\ bytes_ok buf' /\
+    forall q p, 0 <= q < r_h b -> 0 <= p < r_w b ->
+      let K := Kpix_exact rule G (x0 b * 4) (y0 b * 4) q p in
+      0 <= K <= 16 /\
+      (zn buf' (q * r_w b + p) = Z.min 255 (16 * K) \/ zn buf' (q * r_w b + p) = 16 * K - 1).
+Proof. exact rasterize_lines_coverage_exact. Qed.
+Print Assumptions C01_coverage_is_exact_supersampling_partial.
+
+(* (14) the same with antialiasing off: 255 exactly when cell 4p+3 of the pixel's first sample row is inside by the exact
+   rounded crossings *)
+Theorem C01_coverage_aliased_is_exact_sampling_partial : forall rule W H gs,
+  let r := add_segs (rast_new W H) gs in
+  let b := get_bounds r in
+  let G := map seg_geom gs in
+  let my := y0 b * 4 in
+  0 <= H -> 0 <= r_w b -> 0 <= r_h b ->
+  (forall q, 0 <= q < r_h b -> forall g, In g G -> g_live (my + 4 * q) g = true -> g_gap (my + 4 * q) g) ->
+  exists r' buf',
+    rasterize blit_mask rule r (maskbuf_new (x0 b) (y0 b) (r_w b) (r_h b)) =
+      Ok (r', mk_maskbuf (x0 b * 4) my (r_w b) buf') /\
+    length buf' = Z.to_nat (r_w b * r_h b + 1) /\
+    forall q p, 0 <= q < r_h b -> 0 <= p < r_w b ->
+      zn buf' (q * r_w b + p) =
+        (if cov_exact rule (filter (g_live (my + 4 * q)) G) (my + 4 * q) (4 * p + 3 + x0 b * 4) then 255 else 0).
+Proof. exact rasterize_lines_coverage_aliased_exact. Qed.
+Print Assumptions C01_coverage_aliased_is_exact_sampling_partial.
